@@ -138,7 +138,12 @@ func runC15(c *Ctx, w *World, r *Report) {
 					// count form: n leading all-ones words are counted first, then Offset += 64*n and Words = Words[n:]
 					if why, ok := compactCountForm(w, fa, st, L); ok {
 						facts = append(facts, why)
+					} else if why2, ok2 := compactLocalForm(w, fa, st); ok2 {
+						facts = append(facts, why2)
 					} else {
+						if why == "" {
+							why = why2
+						}
 						bad = fmt.Sprintf("Offset is set to %s at %s: not Offset + 64*c (c >= 1)", L, w.InstrPos(st))
 						if why != "" {
 							bad = why
@@ -241,6 +246,17 @@ func runC15(c *Ctx, w *World, r *Report) {
 			case "Words":
 				// a Words store outside an advancing block?
 				hasOff := false
+				if p, ok := st.Val.(*ssa.Phi); ok && isLoopHeaderPhi(p) {
+					for _, i2 := range st.Block().Instrs {
+						if s2, ok := i2.(*ssa.Store); ok {
+							if f2, ok := s2.Addr.(*ssa.FieldAddr); ok && fieldName(f2) == "Offset" {
+								if q, ok := s2.Val.(*ssa.Phi); ok && q.Block() == p.Block() {
+									return // the local-copies form: checked together with its Offset store
+								}
+							}
+						}
+					}
+				}
 				if sl, ok := st.Val.(*ssa.Slice); ok && sl.Low != nil {
 					if p, ok := stripConv(sl.Low).(*ssa.Phi); ok && isLoopHeaderPhi(p) {
 						return // the count form: checked together with its Offset store
@@ -309,6 +325,18 @@ func runC15(c *Ctx, w *World, r *Report) {
 				}
 			}
 		})
+		if offLoad == nil && strings.HasSuffix(n, ".Get1") {
+			// Get1 answered through Get: `if tb.Get(idx) != 0 { return 1 }; return 0` - Get yields 0 or the one bit of the
+			// position, so the split and the rebasing are Get's, decided above
+			if why, ok := get1ViaGet(fn, fns["bitmap.(*TailBitmap).Get"], fa); ok {
+				r.OK("R-SPLIT", n, w.Pos(fn.Pos()), why)
+				r.OK("R-REBASE", n, w.Pos(fn.Pos()), why)
+				continue
+			} else if why != "" {
+				r.Bad("R-SPLIT", n, w.Pos(fn.Pos()), why)
+				continue
+			}
+		}
 		if offLoad == nil {
 			r.Bad("R-SPLIT", n, w.Pos(fn.Pos()), "the function never reads Offset")
 			continue
@@ -673,4 +701,198 @@ func init() {
 		Quick:   []Config{cfgDefault, cfg386}, Thorough: []Config{cfgDefault, cfg386},
 		Run: runC15,
 	})
+}
+
+// compactLocalForm: Compact works on local copies and stores them back once:
+//
+//	offset, words := tb.Offset, tb.Words
+//	for len(words) > 0 && words[0] == allOnes { offset += 64*c; words = words[c:] }
+//	tb.Offset, tb.Words = offset, words
+//
+// Both stored values are loop-carried variables of one loop, started from the fields; every round advances the offset
+// by 64*c and drops c words, and is taken only under len(words) > 0 and words[0] == 2^64-1 and nothing else.
+func compactLocalForm(w *World, fa *FA, st *ssa.Store) (string, bool) {
+	po, ok := st.Val.(*ssa.Phi)
+	if !ok || !isLoopHeaderPhi(po) {
+		return "", false
+	}
+	var pw *ssa.Phi
+	for _, i2 := range st.Block().Instrs {
+		s2, ok := i2.(*ssa.Store)
+		if !ok {
+			continue
+		}
+		if f2, ok := s2.Addr.(*ssa.FieldAddr); ok && fieldName(f2) == "Words" {
+			q, ok := s2.Val.(*ssa.Phi)
+			if !ok || q.Block() != po.Block() {
+				return "Offset is stored back from a local copy but Words is not stored back from the copy advanced with it", false
+			}
+			pw = q
+		}
+	}
+	if pw == nil {
+		return "Offset is stored back from a local copy without storing the re-sliced Words in the same block", false
+	}
+	hb := po.Block()
+	if !hb.Dominates(st.Block()) {
+		return "", false
+	}
+	nround := 0
+	for i, pred := range hb.Preds {
+		eo, ew := po.Edges[i], pw.Edges[i]
+		if !hb.Dominates(pred) {
+			if _, f, ok := asFieldLoad(eo); !ok || f != "Offset" {
+				return "the local offset does not start from Offset", false
+			}
+			if _, f, ok := asFieldLoad(ew); !ok || f != "Words" {
+				return "the local words do not start from Words", false
+			}
+			continue
+		}
+		nround++
+		d := fa.Lin(eo).Sub(fa.Lin(po))
+		if !d.IsConst() || d.K <= 0 || d.K%64 != 0 {
+			return fmt.Sprintf("a round changes the local offset by %s: not +64*c (c >= 1)", d), false
+		}
+		c := d.K / 64
+		sl, ok := ew.(*ssa.Slice)
+		if !ok || sl.X != ssa.Value(pw) || sl.Low == nil || sl.High != nil {
+			return "a round does not re-slice the local words as words[c:]", false
+		}
+		if lo, okc := constInt64(sl.Low); !okc || lo != c {
+			return fmt.Sprintf("a round advances the offset by 64*%d but does not drop %d word(s) at %s", c, c, w.InstrPos(sl)), false
+		}
+		// guards of the round, relative to the loop header
+		gLen, gOnes := false, false
+		for _, cd := range fa.Conds(pred) {
+			if cd.If == nil || !hb.Dominates(cd.If.Block()) {
+				continue // established before the loop
+			}
+			recognised := false
+			if D, _, ok := fa.CondRel(cd); ok && len(D.T) == 1 {
+				for atom, coef := range D.T {
+					if cl, ok := asCall(fa.AtomValue(atom), "builtin len"); ok && cl.Common().Args[0] == ssa.Value(pw) {
+						bd := fa.boundsFrom([]Cond{cd}, linAtom(atom))
+						if (coef == 1 || coef == -1) && bd.HasLo && bd.Lo >= 1 {
+							gLen, recognised = true, true
+						}
+					}
+				}
+			}
+			if bo, ok := cd.V.(*ssa.BinOp); ok && (bo.Op == token.EQL && cd.Pol || bo.Op == token.NEQ && !cd.Pol) {
+				for _, side := range [2][2]ssa.Value{{bo.X, bo.Y}, {bo.Y, bo.X}} {
+					cont, idx, ok := asElemLoad(side[0])
+					if !ok || cont != ssa.Value(pw) {
+						continue
+					}
+					i0, okI := constInt64(stripConv(idx))
+					cv, okC := constUint64(stripConv(side[1]))
+					if okI && okC && i0 == 0 && cv == ^uint64(0) {
+						gOnes, recognised = true, true
+					}
+				}
+			}
+			if !recognised {
+				return "dropping a leading all-ones word additionally depends on the branch at " + w.InstrPos(cd.If) + ": Compact can stop while the first stored word is still all-ones", false
+			}
+		}
+		if !gLen {
+			return "a round is not guarded by len(words) > 0", false
+		}
+		if !gOnes {
+			return "a round is not guarded by words[0] == all-ones", false
+		}
+	}
+	if nround == 0 {
+		return "", false
+	}
+	// nothing else writes the fields between the copies and the store back
+	bad := ""
+	eachInstr(st.Parent(), func(ins ssa.Instruction) {
+		s2, ok := ins.(*ssa.Store)
+		if !ok || s2 == st || s2.Block() == st.Block() {
+			return
+		}
+		if f2, ok := s2.Addr.(*ssa.FieldAddr); ok && (fieldName(f2) == "Offset" || fieldName(f2) == "Words") && hb.Dominates(s2.Block()) && !st.Block().Dominates(s2.Block()) {
+			bad = "a field is written at " + w.InstrPos(s2) + " while Compact works on local copies of Offset and Words"
+		}
+	})
+	if bad != "" {
+		return bad, false
+	}
+	return "local copies of Offset and Words advanced together (+64*c, words[c:]) under len(words)>0 and words[0]==2^64-1, stored back once", true
+}
+
+// get1ViaGet: every return of Get1 is the constant 1 on the edge Get(idx) != 0 and the constant 0 on the edge
+// Get(idx) == 0, Get being called on the same receiver with the same position, and Get1 touches nothing else.
+func get1ViaGet(fn, get *ssa.Function, fa *FA) (string, bool) {
+	if get == nil {
+		return "", false
+	}
+	var call *ssa.Call
+	other := ""
+	eachInstr(fn, func(ins ssa.Instruction) {
+		switch x := ins.(type) {
+		case *ssa.Call:
+			if x.Common().StaticCallee() == get && call == nil {
+				call = x
+			} else {
+				other = "Get1 calls something besides Get"
+			}
+		case *ssa.Store, *ssa.FieldAddr, *ssa.IndexAddr:
+			other = "Get1 reads or writes the bitmap besides calling Get"
+		}
+	})
+	if call == nil {
+		return "", false
+	}
+	if other != "" {
+		return other, false
+	}
+	args := call.Common().Args
+	if len(args) != 2 || args[0] != ssa.Value(fn.Params[0]) || args[1] != ssa.Value(fn.Params[1]) {
+		return "Get1 asks Get about another bitmap or another position", false
+	}
+	nret := 0
+	for _, ret := range returnsOf(fn) {
+		for _, lf := range fa.leavesOf(ret.Results[0], ret.Block(), 0) {
+			k, ok := constInt64(stripConv(lf.V))
+			if !ok || (k != 0 && k != 1) {
+				return "Get1 returns something other than the constants 0 and 1", false
+			}
+			known := false
+			for _, cd := range lf.Conds {
+				bo, ok := cd.V.(*ssa.BinOp)
+				if !ok || (bo.Op != token.NEQ && bo.Op != token.EQL) {
+					continue
+				}
+				var z ssa.Value
+				switch {
+				case stripConv(bo.X) == ssa.Value(call):
+					z = bo.Y
+				case stripConv(bo.Y) == ssa.Value(call):
+					z = bo.X
+				default:
+					continue
+				}
+				if c, ok := constUint64(stripConv(z)); !ok || c != 0 {
+					continue
+				}
+				nonzero := (bo.Op == token.NEQ) == cd.Pol
+				if nonzero == (k == 1) {
+					known = true
+				} else {
+					return "Get1 answers 1 where Get found 0 (or 0 where Get found the bit)", false
+				}
+			}
+			if !known {
+				return "Get1 returns a constant on an edge that does not test Get(idx) against 0", false
+			}
+			nret++
+		}
+	}
+	if nret < 2 {
+		return "Get1 does not distinguish the two answers of Get", false
+	}
+	return "Get1 = 1 on the edge Get(idx) != 0, 0 on the edge Get(idx) == 0 (same receiver, same position)", true
 }
